@@ -807,7 +807,7 @@ impl Model {
             if let Some(ac) = auto {
                 if !given[ac] || full[ac].is_null() {
                     let nt = &nv.tables[table];
-                    full[ac] = Val::Int(nt.auto_max + 1);
+                    full[ac] = Val::Int(nt.auto_max.saturating_add(1));
                     generated_here = true;
                     any_generated = true;
                 }
